@@ -60,6 +60,9 @@ def steady(draw):
                 p = {"id": pid, "flavour": flv, "role": kind, "program": [["beat", 5, 100000]], "end": ["forever"], "cleanup": {}}
                 if kind == "adopt":
                     p.update(draw(arguments()))
+                elif draw(st.integers(0, 3)) == 0:
+                    # the service class refines a service class that was declared for another flavour
+                    p["refines"] = draw(st.sampled_from([f for f in ALL if f != flv]))
                 mode = draw(st.sampled_from(["pre", "outside", "outside", "from", "from"]))
                 t = draw(st.sampled_from(times))
                 if mode == "pre":
@@ -258,6 +261,7 @@ def run_case(sc) -> Result:
     res = judge(sc, obs)
     flavours = {p["flavour"] for p in sc["payloads"] if p["role"] in ("adopt", "service")}
     in_window = getattr(res, "info_in_window", 0)
+    res.cls("refined-service:" + str(any(p.get("refines") for p in sc["payloads"])))
     res.cls("phase:" + sc["phase"], "flavours:%d" % len(flavours), "payloads:%s" % ("0" if not sc["payloads"] else "<10" if len(sc["payloads"]) < 10 else ">=10"),
             "adopts-in-cleanup-window:%s" % ("0" if not in_window else "1-5" if in_window <= 5 else ">5"))
     for p in sc["payloads"]:
